@@ -41,6 +41,15 @@ func (a *vpPrefixAut) Accept(s int, b byte) int {
 var vpTermPatterns = [][]int{nil, {0}, {0, 1}, {2}, {1, 2}}
 
 // C08: dictionaries of built and merged segments: ranges, automata, counts, Contains, unknown fields/terms.
+func vpLongTermOf(last byte) string {
+	b := make([]byte, 300)
+	for i := range b {
+		b[i] = 'L'
+	}
+	b[299] = last
+	return string(b)
+}
+
 func vpH_C08_dict() {
 	names := []string{"a", "b", "c"}
 	if vpThorough() {
@@ -70,6 +79,10 @@ func vpH_C08_dict() {
 	add(1, "x", 1)
 	add(2, "xa", 1)
 	add(2, "y\xfe", 3)
+	// two terms of 300 bytes that differ in their last byte only (longer than any
+	// fixed-size term buffer, sharing a 299-byte prefix)
+	add(0, vpLongTermOf('a'), 1)
+	add(2, vpLongTermOf('b'), 2)
 	var docs []*vpDoc
 	for d := 0; d < 3; d++ {
 		docs = append(docs, &vpDoc{fields: []*vpField{{name: "f", length: len(docTerms[d]), terms: docTerms[d]}}})
